@@ -8,7 +8,7 @@ import numpy as np
 from sympy import Abs, S, cacheit
 from sympy import Indexed, Matrix, ImmutableDenseMatrix
 from sympy import expand
-from sympy.core import Basic, Symbol
+from sympy.core import Basic, Symbol, Float
 from sympy.core import Add, Mul, Pow
 from sympy.core.function import Function
 from sympy.core.expr import AtomicExpr
@@ -616,7 +616,18 @@ class TerminalExpr(CalculusFunction):
             return J
 
         elif isinstance(expr, SymbolicDeterminant):
-            return cls.eval(expr.arg, domain=domain).det().factor()
+            M = cls.eval(expr.arg, domain=domain)
+            if M.atoms(Float):
+                # Matrix.det() cancels (and factor() re-expands) its result; with floating-point
+                # coefficients this is numerically unstable (a CzarnyMapping with float parameters
+                # got a negative, hence imaginary, volume element): expand along the first row
+                def cofactor_det(A):
+                    if A.rows == 1:
+                        return A[0, 0]
+                    return Add(*[(-1)**j * A[0, j] * cofactor_det(A.minor_submatrix(0, j))
+                                 for j in range(A.cols)])
+                return cofactor_det(M)
+            return M.det().factor()
 
         elif isinstance(expr, SymbolicTrace):
             return cls.eval(expr.arg, domain=domain).trace()
